@@ -577,8 +577,8 @@ def evidence_info():
         "rule": (
             "one evaluation = one simulated run: 1-4 caller threads x 1-6 read operations (filter/get/part_filter/test/validate) on one "
             "shared world (schemas sharing Rule objects sharing condition/path objects, 2-4 variant documents, shared Data wrappers); 80% of runs "
-            "pre-emptive at source-line granularity (20% of those at opcode granularity) under random/PCT/stratified/after-write strategies, 20% at "
-            "operation boundaries; <=30% of runs carry an abort and/or alloc_fail fault. distinct = distinct (world digest, schedule digest); "
+            "pre-emptive at source-line granularity (20% of those at opcode granularity) under random/PCT/stratified/after-write/targeted strategies, 20% at "
+            "operation boundaries (60% of those with caller-side in-place edits of the documents between operations); <=30% of runs carry an abort and/or alloc_fail fault. distinct = distinct (world digest, schedule digest); "
             "non-trivial = at least two callers touch a common shared object AND at least one context switch happened in the middle of an operation."
         ),
         "components": {
@@ -590,6 +590,7 @@ def evidence_info():
         "assumptions": [
             "fresh-object reference runs use the same valida code, so only dependence on history, sharing and schedule is detected - not what a condition means",
             "abort is sound for a property over schedules because the state left behind is the state an observer scheduled at that point would see; assumes no `except BaseException` handler in valida writes to shared objects (there is none)",
-            "mutations of objects not reachable from the arguments, and container stores that write back an equal value, are invisible",
+            "mutations of objects not reachable from the arguments, and container stores that write back an equal value, are invisible to the monitors (the history oracle still sees their effect on outcomes)",
+            "reference computations run with valida's module-level mutable state put back to import time (isolation.pristine_state); that state is also reset before every run",
         ],
     }
